@@ -199,6 +199,29 @@ theorem file_open_never_panics (file : List UInt8) (start : Nat) (site : String)
     fileOpen file start ≠ .panic site := by
   rw [fileOpen_eq]; exact reader_new_never_panics _ site
 
+/-! ## Callbacks that fail (`raw::CallbackError`) -/
+
+/-- **I/O errors of the callbacks.**  If any of the callback calls of `Reader::new` (`read` ×5–6,
+`set_seek_base`, `ensure_filesize`; `fails k` = the k-th call returns `Err(CallbackError)`) fails,
+the result is `Error::Callback` or the format error that is detected before that call — never a
+panic, and never a different reader: `newCb` is `new` or the callback's error.  With callbacks
+that never fail it is `new`. -/
+theorem callback_errors_new (bytes : List UInt8) (fails : Nat → Bool) :
+    (Reader.newCb bytes fails = Reader.new bytes ∨ Reader.newCb bytes fails = .err .callback)
+      ∧ (∀ site, Reader.newCb bytes fails ≠ .panic site)
+      ∧ Reader.newCb bytes (fun _ => false) = Reader.new bytes :=
+  ⟨newCb_cases bytes fails, newCb_never_panics bytes fails, newCb_never bytes⟩
+
+/-- `read_data` with a failing `seek_read` or `alloc_data_buffer`: the callback's error or the
+result without failure; the reader (`&self`) is not modified, so a later call without failure
+returns what it would have returned (`readDataCb … false false = readData …`). -/
+theorem callback_errors_read_data (r : Reader) (inflate : Nat → List UInt8 → Option (List UInt8))
+    (index : Nat) (failSeek failAlloc : Bool) :
+    (r.readDataCb inflate index failSeek failAlloc = r.readData inflate index
+        ∨ r.readDataCb inflate index failSeek failAlloc = .err .callback)
+      ∧ r.readDataCb inflate index false false = r.readData inflate index :=
+  ⟨readDataCb_cases r inflate index failSeek failAlloc, readDataCb_never r inflate index⟩
+
 /-! ## Writer / reader round trip -/
 
 /-- **Round trip, both format versions.**  For versions 3 and 4, any well-formed item list and any
